@@ -613,6 +613,26 @@ private:
         return true;
     }
 
+    enum class TokenVerdict { NotRequired, Accepted, Missing, Invalid };
+
+    // Gate shared by the commands a configured control token protects (STORE, FETCH, STOP).
+    TokenVerdict verify_control_token(const ControlFields& fields) {
+        std::optional<std::string> control_token;
+        {
+            std::scoped_lock lock(node_mutex_);
+            control_token = node_.config().control_token;
+        }
+        if (!control_token.has_value()) {
+            return TokenVerdict::NotRequired;
+        }
+        const auto token_it = fields.find("TOKEN");
+        if (token_it == fields.end()) {
+            return TokenVerdict::Missing;
+        }
+        return constant_time_equal(*control_token, token_it->second) ? TokenVerdict::Accepted
+                                                                     : TokenVerdict::Invalid;
+    }
+
     void accept_loop() {
     while (running_.load(std::memory_order_acquire)) {
             sockaddr_in client_addr{};
@@ -730,7 +750,7 @@ private:
         }
         if (command == "STOP") {
             metrics_.command_stop_requests_total.fetch_add(1, std::memory_order_relaxed);
-            handle_stop(client, remote_identity);
+            handle_stop(client, request, remote_identity);
             return;
         }
         if (command == "LIST") {
@@ -819,7 +839,22 @@ private:
                   std::move(log_fields));
     }
 
-    void handle_stop(NativeSocket client, const std::string& remote_identity) {
+    void handle_stop(NativeSocket client, const ParsedRequest& request, const std::string& remote_identity) {
+        const auto verdict = verify_control_token(request.fields);
+        if (verdict == TokenVerdict::Missing || verdict == TokenVerdict::Invalid) {
+            auto error = make_error("ERR_STOP_UNAUTHENTICATED",
+                                    verdict == TokenVerdict::Missing ? "Control token required" : "Invalid control token",
+                                    verdict == TokenVerdict::Missing ? "Provide --control-token when invoking the CLI"
+                                                                     : "Verify the shared secret configured on the daemon");
+            log_event(StructuredLogger::Level::Warning,
+                      "control.command.stop",
+                      {{"remote", remote_identity},
+                       {"status", "error"},
+                       {"code", "ERR_STOP_UNAUTHENTICATED"}});
+            send_response(client, std::move(error), false);
+            return;
+        }
+
         const bool should_stop_transport = !transport_stopped_.exchange(true, std::memory_order_acq_rel);
 
         bool invoked_shutdown = false;
@@ -1228,6 +1263,22 @@ private:
         };
 
         const auto& fields = request.fields;
+        const auto verdict = verify_control_token(fields);
+        if (verdict == TokenVerdict::Missing) {
+            auto error = make_error("ERR_FETCH_UNAUTHENTICATED",
+                                    "Control token required",
+                                    "Provide --control-token when invoking the CLI");
+            respond_error(std::move(error), "auth_missing", true, false);
+            return;
+        }
+        if (verdict == TokenVerdict::Invalid) {
+            auto error = make_error("ERR_FETCH_UNAUTHENTICATED",
+                                    "Invalid control token",
+                                    "Verify the shared secret configured on the daemon");
+            respond_error(std::move(error), "auth_invalid", true, false);
+            return;
+        }
+
         const auto manifest_it = fields.find("MANIFEST");
         if (manifest_it == fields.end()) {
             auto error = make_error("ERR_FETCH_MANIFEST_REQUIRED",
